@@ -14,6 +14,10 @@ pub struct Pass {
     /// depth that must complete, else the run is a machinery failure (cap hit before minimum bound)
     pub min_depth: usize,
     pub budget: Duration,
+    /// further levels beyond `depth` in which only one representative per canonical state is extended (0 = none)
+    pub dedup_extra: usize,
+    /// time for those further levels (on top of `budget`)
+    pub dedup_budget: Duration,
 }
 
 pub fn threads() -> usize {
@@ -36,8 +40,15 @@ pub fn run_passes(o: &mut Outcome, passes: &[Pass]) -> Witness {
     for pass in passes {
         let budget = pass.budget + carry;
         let t0 = Instant::now();
-        let rep = explore(&pass.prop, pass.depth, t0 + budget, threads(), &merge_wit);
-        carry = budget.saturating_sub(t0.elapsed());
+        let rep = if pass.dedup_extra > 0 && pass.prop.dedup {
+            explore_dedup(&pass.prop, pass.depth, pass.depth + pass.dedup_extra, t0 + budget, pass.dedup_budget, threads(), &merge_wit)
+        } else {
+            explore(&pass.prop, pass.depth, t0 + budget, threads(), &merge_wit)
+        };
+        let ext = rep.completed_depth >= pass.depth && rep.exhaustive_wall > Duration::ZERO;
+        carry = budget.saturating_sub(if ext { rep.exhaustive_wall } else { t0.elapsed() });
+        // the exhaustive part counts as capped only if the requested depth did not complete
+        let capped_core = rep.capped && rep.completed_depth < pass.depth;
         o.cov_add("states", rep.programs);
         o.cov_add("transitions", rep.transitions.max(1));
         o.cov_add("traces_validated_against_impl", rep.programs);
@@ -52,8 +63,13 @@ pub fn run_passes(o: &mut Outcome, passes: &[Pass]) -> Witness {
             "cfg": pass.prop.cfg.name(),
             "prefix": prog_str(&pass.prop.prefix),
             "depth_requested": pass.depth,
-            "depth_completed_exhaustively": rep.completed_depth,
-            "capped_by_time": rep.capped,
+            "depth_completed_exhaustively": rep.completed_depth.min(pass.depth),
+            "representative_depth_requested": pass.depth + if pass.prop.dedup { pass.dedup_extra } else { 0 },
+            "depth_completed_one_representative_per_canonical_state": rep.completed_depth,
+            "programs_not_extended_because_state_already_expanded_per_depth": rep.merged_per_level,
+            "canonical_states": rep.canon_states,
+            "capped_by_time": capped_core,
+            "representative_extension_capped_by_time": rep.capped && !capped_core,
             "programs_per_depth": rep.per_level,
             "programs": rep.programs,
             "distinct_outcomes": rep.outcomes.len(),
